@@ -254,6 +254,21 @@ func (w *World) applyRaw(buf []byte, idx uint64) (out string) {
 	return NormResult(r)
 }
 
+// ApplyEncoded applies an already encoded command (as an RPC endpoint hands it to raft) at the next
+// log index and returns the FSM's raw response.
+func (w *World) ApplyEncoded(name string, buf []byte) any {
+	idx := w.Next
+	w.Next++
+	w.applyRaw(buf, idx)
+	return w.LastRaw
+}
+
+// Record appends one composite step to the history kept for messages and replay files.
+func (w *World) Record(name, res string) {
+	w.Hist = append(w.Hist, name)
+	w.Results = append(w.Results, res)
+}
+
 func NormResult(r any) string {
 	switch x := r.(type) {
 	case nil:
